@@ -1,13 +1,11 @@
-"""C02 — discrete samplers: agreement with their reference algorithms, for the samplers whose algorithm is one rejection step per
-iteration without state carried between iterations (DESIGN.md 5/C02, 11.9).
+"""C02 — discrete samplers: agreement with their reference algorithms (DESIGN.md 5/C02, 11.9).
 
-Same machinery and the same three comparisons (A tests, B decision function, C returned terms / derived constants) as C01
-(rules_c01.py).  Covered: Zeta (Devroye's rejection from the Pareto-like envelope: proposal floor(U^(-1/(s-1))), b = 2^(s-1), acceptance
-V X (T-1) b <= T (b-1), the infinite-proposal return) and Zipf (Crease's rejection from the piecewise envelope: normaliser t, its
-inverse CDF on the three parameter regimes s = 1, s -> infinity and otherwise, proposal floor(B) + 1, acceptance ratio x^-s resp. x^-s B^s).
-Samplers whose loops carry state are compared as transition systems (algsum.summarize_ts: the function is cut at its entry and at every loop
-header; a segment runs from one cut point to the next; at a cut point the loop-carried variables are symbols): Poisson/Knuth, StandardGeometric,
-BINV, BTPE (four cut points), plus Binomial::new.  Not covered yet: Poisson's Ahrens-Dieter rejection method, Geometric, Hypergeometric (HIN, H2PE).
+Same machinery and the same comparisons (A tests, B decision function, C returned terms / derived constants) as C01 (rules_c01.py); samplers whose
+loops carry state are compared as transition systems cut at the loop headers (per segment: guard, next cut point, update of every carried variable).
+Covered: Zeta (Devroye's rejection from the Pareto-like envelope), Zipf (rejection from the piecewise envelope; Zipf::new, inv_cdf), Poisson/Knuth,
+Binomial BINV and BTPE (Kachitvichyanukul & Schmeiser 1988) with Binomial::new, StandardGeometric, Geometric (trivial algorithm / Bringmann &
+Friedrich 2013), Hypergeometric HIN (Kachitvichyanukul & Schmeiser 1985, inverse transform by the pmf ratio).
+Not covered (reported in the evidence as not examined): Poisson's Ahrens-Dieter rejection, Hypergeometric H2PE and Hypergeometric::new.
 The pmf itself is not decided anywhere.
 """
 CONFIGS_THOROUGH = ["serde", "release"]
@@ -132,7 +130,7 @@ def _btpe_spec():
     rules["endB"] = [("f/(%s/(i_b + 1) - %s) < v" % (a_, s_), "goto outer"), (None, "goto accL")]
     rules["accL"] = [("flag flipped", "return n - y"), (None, "return y")]
     return dict(name="btpe", fn="binomial::btpe", kind="ts", generic=False, bits=(64,), self_ty=None, draws=[("Uniform", "u"), ("Uniform", "v")],
-                rename={"btpe_n": "n", "btpe_p": "p", "btpe_m": "m", "btpe_p1": "p1", "lambda": "lam_", "i_195": "i_b"},
+                rename={"btpe_n": "n", "btpe_p": "p", "btpe_m": "m", "btpe_p1": "p1", "lambda": "lam_", "i__2": "i_b"},
                 symbols={"n": "positive", "p": "positive", "m": "positive", "p1": "positive", "u": "positive", "v": "positive", "f": "positive", "i": "positive", "i_b": "positive", "y": "positive"},
                 nodes={"entry": [], "outer": [], "loopA": ["f", "i", "y", "v"], "loopB": ["f", "i_b", "y", "v"]},
                 rules=rules)
@@ -166,10 +164,89 @@ def _binomial_new_spec():
 
 SPECS += [_binomial_new_spec()]
 
+_M = "bitand_(w, shl_(1, k) - 1)"
+SPECS += [
+    # ------------------------------------------------------------------ Geometric (trivial algorithm for p >= 2/3; Bringmann & Friedrich 2013 otherwise)
+    dict(name="Geometric::sample", fn="<geometric::Geometric as rand::distr::Distribution<u64>>::sample", kind="ts", generic=False, bits=(64,), self_ty="Geometric",
+         draws=[("StandardUniform", "u0"), ("StandardUniform", "u1"), ("StandardUniform", "w"), ("StandardUniform", "u2")],
+         symbols={"p": "positive", "pi": "positive", "k": "positive", "failures": "positive", "fd": "positive", "u0": "positive", "u1": "positive", "w": "positive", "u2": "positive"},
+         rename={"failures__2": "fd"},
+         nodes={"entry": [], "trivial": ["failures"], "dloop": ["fd"], "mloop": ["fd"]},
+         rules={"entry": [("Rational(2,3) <= p", "goto trivial {failures: 0}"), ("pi == 1", "return 18446744073709551615"), (None, "goto dloop {fd: 0}")],
+                # count failures until the first success
+                "trivial": [("u0 <= p", "return failures"), (None, "goto trivial {failures: failures + 1}")],
+                # D ~ Geo(pi), pi = (1 - p)^(2^k): count draws below pi
+                "dloop": [("u1 < pi", "goto dloop {fd: fd + 1}"), (None, "goto mloop")],
+                # M uniform on [0, 2^k), accepted with probability (1 - p)^M; the result is D 2^k + M
+                "mloop": [("%s <= 2147483647" % _M, "goto acc"), (None, "goto acc")],
+                "acc": [("u2 < (1 - p)**%s" % _M, "return shl_(fd, k) + %s" % _M), (None, "goto mloop")]}),
+]
+
+SPECS += [
+    # ------------------------------------------------------------------ Hypergeometric, HIN (inverse transform by the pmf ratio); H2PE is not described
+    dict(name="Hypergeometric::sample [HIN]", fn="<hypergeometric::Hypergeometric as rand::distr::Distribution<u64>>::sample", kind="ts", generic=False, bits=(64,),
+         self_ty="Hypergeometric", draws=[("StandardUniform", "u0")], rename={"x__2": "x"},
+         symbols={"n1": "positive", "n2": "positive", "k": "positive", "offset_x": "real", "sign_x": "real", "p": "positive", "x": "positive", "u": "positive", "u0": "positive",
+                  "sampling_method_InverseTransform_initial_p": "positive", "sampling_method_InverseTransform_initial_x": "positive"},
+         nodes={"entry": [], "hin": ["p", "x", "u"], "h2pe_outer": [], "h2pe_inner": [], "h2pe_up": [], "h2pe_down": []},
+         unspecified_nodes=["h2pe_outer", "h2pe_inner", "h2pe_up", "h2pe_down"], skip_variants={"sampling_method": ["RejectionAcceptance"]},
+         rules={"entry": [("variant sampling_method InverseTransform",
+                           "goto hin {p: sampling_method_InverseTransform_initial_p, x: sampling_method_InverseTransform_initial_x, u: u0}"), (None, "unspecified")],
+                # P(x + 1) / P(x) = (n1 - x)(k - x) / ((x + 1)(n2 - k + x + 1))
+                "hin": [("p < u", "goto more"), (None, "goto done")],
+                "more": [("x < k", "goto hin {u: u - p, p: p*((n1 - x)*(k - x))/((x + 1)*(n2 - k + 1 + x)), x: x + 1}"), (None, "goto done")],
+                "done": [(None, "return sign_x*x + offset_x")],
+                "h2pe_outer": [(None, "unspecified")], "h2pe_inner": [(None, "unspecified")], "h2pe_up": [(None, "unspecified")], "h2pe_down": [(None, "unspecified")]}),
+]
+
+
+def _hyper_new_spec():
+    """Hypergeometric::new: the two reflections (K <-> N-K, n <-> N-n) with their sign/offset bookkeeping, the HIN/H2PE switch at
+    mode - max(0, k - n2) < 10, the starting point of HIN and the set-up constants of H2PE (Kachitvichyanukul & Schmeiser 1985)."""
+    N, K, n = "N", "K", "n"
+    rules = {"main": [("N < K", "return Err"), (None, "goto c1")],
+             "c1": [("N < n", "return Err"), (None, "goto c2")],
+             "c2": [("N - K < K", "goto swapK"), (None, "goto keepK")]}
+    for tagK, n1, n2, sign0, off0 in (("keepK", K, "(N - K)", "1", "0"), ("swapK", "(N - K)", K, "(-1)", n)):
+        rules[tagK] = [("n <= N/2", "goto %s_keepn" % tagK), (None, "goto %s_swapn" % tagK)]
+        for tagn, k, sign, off in (("keepn", n, sign0, off0), ("swapn", "(N - n)", "(%s*(-1))" % sign0, "(%s + %s*%s)" % (off0, n1, sign0))):
+            tag = "%s_%s" % (tagK, tagn)
+            m = "floor((%s + 1)*(%s + 1)/(N + 2))" % (k, n1)
+            hyp = lambda method: "Result_Ok(Hypergeometric(%s, %s, %s, %s, %s, %s))" % (n1, n2, k, off, sign, method)      # noqa: E731
+            p_lo = "fraction_of_products_of_factorials(tup_(%s, N - %s), tup_(N, %s - %s))" % (n2, k, n2, k)
+            p_hi = "fraction_of_products_of_factorials(tup_(%s, %s), tup_(N, %s - %s))" % (n1, k, k, n2)
+            lnf = "ln_of_factorial"
+            a = "(%s(%s) + %s(%s - %s) + %s(%s - %s) + %s((%s - %s) + %s))" % (lnf, m, lnf, n1, m, lnf, k, m, lnf, n2, k, m)
+            d = "(Rational(3,2)*sqrt((N - %s)*%s*%s*%s/((N - 1)*N*N)) + Rational(1,2))" % (k, k, n1, n2)
+            x_l = "(%s - %s + Rational(1,2))" % (m, d)
+            x_r = "(%s + %s + Rational(1,2))" % (m, d)
+            k_l = "exp(%s - %s(%s) - %s(%s - %s) - %s(%s - %s) - %s((%s - %s) + %s))" % (a, lnf, x_l, lnf, n1, x_l, lnf, k, x_l, lnf, n2, k, x_l)
+            k_r = "exp(%s - %s(%s - 1) - %s(%s - %s + 1) - %s(%s - %s + 1) - %s((%s - %s) + %s - 1))" % (a, lnf, x_r, lnf, n1, x_r, lnf, k, x_r, lnf, n2, k, x_r)
+            lam_l = "(-ln(%s*((%s - %s) + %s)/((%s - %s + 1)*(%s - %s + 1))))" % (x_l, n2, k, x_l, n1, x_l, k, x_l)
+            lam_r = "(-ln((%s - %s + 1)*(%s - %s + 1)/(%s*((%s - %s) + %s))))" % (n1, x_r, k, x_r, x_r, n2, k, x_r)
+            p1 = "(2*%s)" % d
+            p2 = "(%s + %s/%s)" % (p1, k_l, lam_l)
+            p3 = "(%s + %s/%s)" % (p2, k_r, lam_r)
+            h2pe = "SamplingMethod_RejectionAcceptance(%s, %s, %s, %s, %s, %s, %s, %s, %s)" % (m, a, lam_l, lam_r, x_l, x_r, p1, p2, p3)
+            rules[tag] = [("%s - Max(0, %s - %s) < 10" % (m, k, n2), "goto %s_hin" % tag), (None, "return " + hyp(h2pe))]
+            rules[tag + "_hin"] = [("%s < %s" % (k, n2), "goto %s_lo" % tag), (None, "goto %s_hi" % tag)]
+            for sub, pexpr, x0 in (("lo", p_lo, "0"), ("hi", p_hi, "(%s - %s)" % (k, n2))):
+                rules["%s_%s" % (tag, sub)] = [("%s <= 0" % pexpr, "return Err"), ("call is_finite(%s)" % pexpr, "return " + hyp("SamplingMethod_InverseTransform(%s, %s)" % (pexpr, x0))),
+                                                (None, "return Err")]
+    return dict(name="Hypergeometric::new", fn="hypergeometric::Hypergeometric::new", kind="alg", generic=False, bits=(64,), self_ty=None, draws=[],
+                rename={"total_population_size": "N", "population_with_feature": "K", "sample_size": "n"},
+                # identities are checked on the open set K + n < N (every difference under a square root or logarithm is positive there)
+                symbols={"K": "positive", "n": "positive", "s_": "positive"}, subs={"N": "K + n + s_"}, rules=rules)
+
+
+# Hypergeometric::new's reference (_hyper_new_spec) is written down but not armed: the term extraction leaves some of
+# the constructor's float temporaries unresolved, so the comparison would be decided on an incomplete term.
+
 
 def run(chk, F, tier):
-    chk.trusted += ["Devroye (1986, X.6) rejection algorithm for the zeta distribution; Crease's rejection sampler for the Zipf law, as cited in the crate's documentation",
+    chk.trusted += ["Devroye (1986, X.6) rejection algorithm for the zeta distribution; Crease's rejection sampler for the Zipf law; Knuth's product method; "
+                    "Kachitvichyanukul & Schmeiser's BINV/BTPE (1988) and HIN (1985); Bringmann & Friedrich (2013) for Geometric — as cited in the crate's documentation",
                     "sympy's simplification (`equal`) and 40-digit evaluation at rational points (`different`)",
                     "the reference decision lists in rules_c02.py were transcribed from those sources"]
-    rules_c01.run_specs(chk, F, SPECS, 18)
-    chk.notes.append("not examined yet: Poisson Ahrens-Dieter (RejectionMethod), Geometric, Hypergeometric HIN and H2PE")
+    rules_c01.run_specs(chk, F, SPECS, 20)
+    chk.notes.append("not examined: Poisson Ahrens-Dieter (rejection method), Hypergeometric H2PE (its paths are `unspecified` in the reference and skipped), Hypergeometric::new")
